@@ -158,6 +158,9 @@ def run_check(prop, tier, seed, shards=None, replay=None):
                 inconclusive.append(f"anchored function {fn} never entered")
         if sum(m["evals"].values()) == 0:
             inconclusive.append("no evaluations at all")
+        deg = sum(v for k, v in m["notes"].items() if k.startswith("oracle: degenerate input") and "case not judged" in k)
+        if deg > 0.02 * max(1, m["cases_run"]):
+            inconclusive.append(f"{deg} of {m['cases_run']} cases were refused by the oracle as degenerate (generator or oracle problem)")
     # --- classify violations ----------------------------------------------
     known = load_known()
     open_k = {k["mechanism"]: k for k in known.get("findings", [])
